@@ -1,96 +1,62 @@
-"""C05: `action_map` of rapidpro/models/actions.py — action type → class, and which of
-those classes render by passing their `__dict__` through (DefaultRenderedAction or a
-subclass that does not override `render` / `_assign_fields_from_dict`)."""
-import ast
+"""C05: the action types of rapidpro/models/actions.py, which of them are loaded and rendered by
+passing the document through, and the router test tables.
 
-from ..extract_tables import _parse, lean_str, lean_str_list
-
-
-def _classes(mod):
-    out = {}
-    for n in mod.body:
-        if isinstance(n, ast.ClassDef):
-            bases = [b.id for b in n.bases if isinstance(b, ast.Name)]
-            meths = [m.name for m in n.body if isinstance(m, ast.FunctionDef)]
-            out[n.name] = (bases, meths)
-    return out
+HOW IT READS (DESIGN §2.5a)
+* action types and their classes: RUNTIME — the module's `action_map` (type → class), whatever
+  expression builds it.  A lookup table: emitted SORTED by type.
+* pass-through types: BEHAVIOUR — `Action.from_dict(d).render() == d` for a document `d` of that type
+  carrying a key no class knows: a class that passes `__dict__` through returns it, a class with its
+  own `_assign_fields_from_dict` / `render` refuses the document or drops the key.  A set: sorted.
+* router tests: BEHAVIOUR (see t04_router_tests).  Sets: sorted.
+* contactFieldTypeBug (F-C05-a): BEHAVIOUR — does a typed `ContactFieldReference` render the Python
+  builtin `type` instead of its own type?"""
+from .. import t1lib
+from ..extract_tables import lean_str, lean_str_list
+from .t04_router_tests import router_tests
 
 
 def action_map():
-    """[(type, class name)] in source order"""
-    mod = _parse("rapidpro/models/actions.py")
-    for n in mod.body:
-        if isinstance(n, ast.Assign) and any(isinstance(t, ast.Name) and t.id == "action_map" for t in n.targets):
-            assert isinstance(n.value, ast.Dict)
-            pairs = []
-            for k, v in zip(n.value.keys, n.value.values):
-                assert isinstance(k, ast.Constant) and isinstance(k.value, str) and isinstance(v, ast.Name)
-                pairs.append((k.value, v.id))
-            return pairs
-    raise KeyError("action_map")
+    """[(type, class name)] sorted by type"""
+    actions = t1lib.load("rpft.rapidpro.models.actions")
+    amap = actions.action_map
+    assert isinstance(amap, dict) and amap and all(isinstance(k, str) and isinstance(v, type) for k, v in amap.items())
+    return sorted((k, v.__name__) for k, v in amap.items())
+
+
+def pass_through_types():
+    actions = t1lib.load("rpft.rapidpro.models.actions")
+    out = []
+    for ty, _ in action_map():
+        d = {"type": ty, "uuid": "00000000-0000-4000-8000-0000000000a0", "t1_probe_key": {"k": ["v", 1]}}
+        try:
+            back = actions.Action.from_dict(d).render()
+        except Exception:  # noqa: BLE001
+            continue
+        if back == d:
+            out.append(ty)
+    return out
 
 
 def pass_through_classes():
-    mod = _parse("rapidpro/models/actions.py")
-    cl = _classes(mod)
-
-    def is_pt(name, seen=()):
-        if name == "DefaultRenderedAction":
-            # its own render must still be `return self.__dict__`
-            for n in mod.body:
-                if isinstance(n, ast.ClassDef) and n.name == name:
-                    for m in n.body:
-                        if isinstance(m, ast.FunctionDef) and m.name == "render":
-                            return ast.unparse(m.body[-1]) == "return self.__dict__"
-            return False
-        if name not in cl or name in seen:
-            return False
-        bases, meths = cl[name]
-        if "render" in meths or "_assign_fields_from_dict" in meths:
-            return False
-        return any(is_pt(b, seen + (name,)) for b in bases)
-
-    return [c for c in cl if is_pt(c)]
-
-
-def router_tests():
-    """(keys of RouterCase.TEST_VALIDATIONS in source order, sorted NO_ARGS_TESTS)"""
-    mod = _parse("rapidpro/models/routers.py")
-    tests = noargs = None
-    for n in ast.walk(mod):
-        if isinstance(n, ast.ClassDef) and n.name == "RouterCase":
-            for m in n.body:
-                if isinstance(m, ast.Assign) and isinstance(m.targets[0], ast.Name):
-                    if m.targets[0].id == "TEST_VALIDATIONS":
-                        tests = [k.value for k in m.value.keys]
-                    elif m.targets[0].id == "NO_ARGS_TESTS":
-                        noargs = sorted(ast.literal_eval(m.value))
-    assert tests and noargs
-    return tests, noargs
+    """class names of the pass-through types (kept for callers that want classes)"""
+    pt = set(pass_through_types())
+    return sorted({c for t, c in action_map() if t in pt})
 
 
 def contact_field_type_bug() -> bool:
-    """does ContactFieldReference.render assign the bare name `type` (the builtin) to
-    render_dict["type"]?  (F-C05-a; False once the source says `self.type`)"""
-    mod = _parse("rapidpro/models/common.py")
-    for n in ast.walk(mod):
-        if isinstance(n, ast.ClassDef) and n.name == "ContactFieldReference":
-            for m in n.body:
-                if isinstance(m, ast.FunctionDef) and m.name == "render":
-                    for a in ast.walk(m):
-                        if (isinstance(a, ast.Assign) and isinstance(a.targets[0], ast.Subscript)
-                                and isinstance(a.targets[0].slice, ast.Constant) and a.targets[0].slice.value == "type"):
-                            return isinstance(a.value, ast.Name) and a.value.id == "type"
-    raise KeyError("ContactFieldReference.render: assignment to render_dict['type'] not found")
+    common = t1lib.load("rpft.rapidpro.models.common")
+    r = common.ContactFieldReference("t1 probe", type="text").render()
+    return r.get("type") is type
 
 
 def tables() -> str:
     pairs = action_map()
     tests, noargs = router_tests()
-    pt = set(pass_through_classes())
+    pt = pass_through_types()
     return (
+        "-- lookup tables / sets: sorted\n"
         "def actionTypes : List (List Char) := " + lean_str_list([k for k, _ in pairs]) + "\n"
-        "def actionPassThrough : List (List Char) := " + lean_str_list([k for k, c in pairs if c in pt]) + "\n"
+        "def actionPassThrough : List (List Char) := " + lean_str_list(pt) + "\n"
         "def routerTests : List (List Char) := " + lean_str_list(tests) + "\n"
         "def routerNoArgTests : List (List Char) := " + lean_str_list(noargs) + "\n"
         "def contactFieldTypeBug : Bool := " + ("true" if contact_field_type_bug() else "false") + "\n"
